@@ -136,6 +136,19 @@ fn secret(rng: &mut Rng) -> [u8; 32] {
     }
 }
 
+/// BOLT-3 trimming threshold of an HTLC on this - the counterparty's - commitment, computed here:
+/// dust limit + feerate * weight / 1000 with the HTLC-timeout weight (663) for an HTLC the
+/// broadcaster offers and the HTLC-success weight (703) for one it receives; on zero-fee-anchor
+/// channels the second-stage transactions pay no fee.  The signer's dust limits: 330 sat, 354 on
+/// zero-fee-anchor channels.
+fn trim_threshold(ctype: u8, feerate: u32, offered: bool) -> u64 {
+    if ctype == 3 {
+        354
+    } else {
+        330 + feerate as u64 * (if offered { 663 } else { 703 }) / 1000
+    }
+}
+
 /// weight used by validate_fee (vls-core expected_commitment_tx_weight)
 fn expected_weight(ctype: u8, n_htlcs: usize) -> u64 {
     (if ctype >= 2 { 1124 } else { 724 }) + 172 * n_htlcs as u64
@@ -191,8 +204,11 @@ fn gen_case(seed: u64, idx: usize, tier: &str) -> Case {
     };
     let feerate = *rng.pick(&[253u32, 254, 1000, 2500, 5000, 15000]);
     let zf = ctype == 3;
-    let lim_off = if zf { 354 } else { 330 + feerate as u64 * 663 / 1000 };
-    let lim_rec = if zf { 354 } else { 330 + feerate as u64 * 703 / 1000 };
+    let lim_off = trim_threshold(ctype, feerate, true);
+    let lim_rec = trim_threshold(ctype, feerate, false);
+    // amounts at the trim boundaries of BOTH directions, on both sides: threshold - 1, threshold,
+    // threshold + 1 (a received HTLC between the two thresholds is trimmed, an offered one is not)
+    let boundary = [lim_off.saturating_sub(1), lim_off, lim_off + 1, lim_rec.saturating_sub(1), lim_rec, lim_rec + 1];
     let max_h = if tier == "quick" { 5 } else { 9 };
     let (mut n_off, mut n_rec) = if kind == "initial" {
         (0, 0)
@@ -216,6 +232,7 @@ fn gen_case(seed: u64, idx: usize, tier: &str) -> Case {
             4 => 65_536 + lim,
             _ => lim + rng.below(50_000),
         };
+        let value = if rng.chance(1, 4) { *rng.pick(&boundary) } else { value };
         let hash = if rng.chance(1, 3) { *rng.pick(&pool) } else { rng.bytes32() };
         H { value, hash, cltv: *rng.pick(&cltvs), extra: *rng.pick(&[0u64, 0, 1, 500, 999]) }
     };
@@ -1254,7 +1271,8 @@ fn make_handler(node: &Arc<Node>, proto: u32, peer_id: [u8; 33], dbid: u64) -> C
 
 /// The BOLT-3 commitment transaction of the wire content, built with LDK directly from the
 /// harness's own reading of the fields (no builder of the signer): an HTLC of `amount_msat` is an
-/// output of amount_msat / 1000 satoshi (rounded down); side 1 (REMOTE) is offered by the
+/// output of amount_msat / 1000 satoshi (rounded down), or no output when that is below the
+/// trimming threshold of its direction; side 1 (REMOTE) is offered by the
 /// broadcaster of this - the counterparty's - commitment, side 0 (LOCAL) is received by it.
 fn expected_bolt3_tx(c: &Case, holder: &ChannelPublicKeys, k: &Keys, secp: &Secp256k1<All>) -> Option<Vec<u8>> {
     let mut features = ChannelTypeFeatures::only_static_remote_key();
@@ -1284,6 +1302,8 @@ fn expected_bolt3_tx(c: &Case, holder: &ChannelPublicKeys, k: &Keys, secp: &Secp
     };
     let mut htlcs: Vec<(HTLCOutputInCommitment, ())> = wire_htlcs(c)
         .iter()
+        // BOLT-3: no output for an HTLC below its trimming threshold
+        .filter(|(side, msat, _, _)| *msat / 1000 >= trim_threshold(c.ctype, c.feerate, *side == 1))
         .map(|(side, msat, hash, cltv)| {
             (
                 HTLCOutputInCommitment {
@@ -1524,6 +1544,14 @@ fn run(args: &Args) {
         }
         let fs = ScriptBuf::from(m.fs.clone());
         let holder_funding = a.holder.funding_pubkey;
+        // the BOLT-3 transaction of the content built with LDK from the harness's own reading
+        // (truncation to satoshis, sides, trimming): the model's must be that transaction
+        let expected = expected_bolt3_tx(&c, &a.holder, &k, &secp);
+        let bolt3_agrees = expected.as_ref().map(|e| *e == m.tx);
+        if bolt3_agrees == Some(false) {
+            viol.push(json!({"what": "the model's BOLT-3 transaction of the content (Commitment.bolt3_tx) differs from the one LDK builds from the harness's reading of the wire fields and trimming thresholds",
+                             "model_tx": hexs(&m.tx), "expected_tx": expected.as_ref().map(|e| hexs(e))}));
+        }
 
         // (a) the semantic entry point, on its own node
         let r2 = phase2(&b, &c, &k.pcp);
@@ -1542,7 +1570,11 @@ fn run(args: &Args) {
         }))
         .ok()
         .flatten();
-        let builder_agrees = impl_tx.as_ref().map(|t| *t == m.tx);
+        // LDK as the signer drives it emits every HTLC: comparable with the BOLT-3 transaction only
+        // when the content has no trimmed HTLC (the others are for the validator to refuse)
+        let has_trimmed = c.offered.iter().any(|h| h.value < trim_threshold(c.ctype, c.feerate, true))
+            || c.received.iter().any(|h| h.value < trim_threshold(c.ctype, c.feerate, false));
+        let builder_agrees = if has_trimmed { None } else { impl_tx.as_ref().map(|t| *t == m.tx) };
 
         // (d) mutants first (every call is made in the same enforcement state), then the canonical pair
         let (_, acc0) = decode_and_validate(&a, &c, &k.pcp, &mtx, &m.ws);
@@ -1725,13 +1757,9 @@ fn run(args: &Args) {
         if let R::Ok((sig2, hsigs)) = &r2 {
             let proto = [4u32, 5, 6][idx % 3];
             let peer = pk_of(&secp, &[9u8; 32]).serialize();
-            match expected_bolt3_tx(&c, &a.holder, &k, &secp) {
+            match expected.clone() {
                 None => viol.push(json!({"what": "harness: LDK could not build the BOLT-3 transaction of the wire content"})),
                 Some(exp) => {
-                    if exp != m.tx {
-                        viol.push(json!({"what": "the model's canonical transaction of the wire content (Commitment.wire_content) differs from the BOLT-3 transaction LDK builds from the harness's reading of the wire fields",
-                                         "model_tx": hexs(&m.tx), "expected_tx": hexs(&exp)}));
-                    }
                     let etx: Transaction = deserialize(&exp).expect("expected tx");
                     let wire_json = wire_htlcs(&c).iter().map(|(s, a, h, e)| json!([s, a, hexs(h), e])).collect::<Vec<_>>();
                     if let Some(lw) = make_live(&secp, &c) {
@@ -1896,7 +1924,7 @@ fn run(args: &Args) {
                 "phase1": if sig1.is_some() { "signed".to_string() } else { format!("refused: {}", err_kind(&p1_status)) },
                 "phase2_status": p2_status, "phase1_status": p1_status,
                 "validator_accepts": acc0,
-                "builder_agrees": builder_agrees,
+                "builder_agrees": builder_agrees, "bolt3_agrees": bolt3_agrees, "has_trimmed_htlc": has_trimmed,
                 "n_outputs": mtx.output.len(), "n_htlc_txs": m.htx.len(), "mutants": n_case_mutants,
                 "digest_checked": digest_checked, "restarted": restarted, "wire_checked": wire_checked,
                 "model_tx": hexs(&m.tx),
